@@ -1,3 +1,260 @@
-import Marwood.Heap.Gc
+import Marwood.Lemmas.HeapWFOps
+import Marwood.Heap.Check
+/-!
+# C03 — garbage collection never reclaims a live object (and what the unobservability proof needs)
+
+Model: `Marwood.Heap` (`Heap`, `Gc`), specification: `Marwood.Spec.Reach`.
+`fixed = true` is the marker after the `fix:` commit (JMP/JNT operands skipped), `fixed = false` the
+pinned one; theorems that hold for both are stated for an arbitrary flag.
+
+* T03.1  `mark_computes_reachable`, `mark_fuel_adequate`
+* T03.2  `runGc_preserves_reachable`, `runGc_preserves_observation` (the form the machine-level
+         simulation consumes; root sufficiency is its hypothesis `hobs`)
+* T03.3  `new_wf`, `alloc_preserves_wf`, `put_preserves_wf`, `maybePut_preserves_wf`, `free_preserves_wf`,
+         `grow_preserves_wf`, `mark_preserves_wfcore`, `runGc_preserves_wf` — for the unfixed marker the negation is
+         `unfixed_marker_breaks_wf`, `unfixed_marker_allocates_cell_twice`
+* T03.5  (unobservability for every program and schedule) is **not** a closed theorem here; see META.note of
+         lib/props/c03.py.
+-/
 namespace Marwood.Proofs.C03
+open Marwood Marwood.Heap Marwood.Spec
+open Marwood.Lemmas.GcMark Marwood.Lemmas.GcSweep Marwood.Lemmas.HeapOps Marwood.Lemmas.GcSafety
+open Marwood.Lemmas.HeapWF Marwood.Lemmas.HeapWFOps
+
+/-! ## T03.1 -/
+
+/-- **T03.1** `Heap::mark` applied to a list of roots terminates (fuel `|roots| + Σ|refs| + 1` suffices)
+and sets to `Used` exactly the cells reachable from the roots in the marker's graph; it changes
+nothing else. -/
+theorem mark_computes_reachable (fixed : Bool) (h : Heap) (roots : List Nat)
+    (hnu : ∀ i : Nat, h.gc[i]? ≠ some GcState.used) :
+    ∃ h', h.mark fixed roots = some h' ∧
+      (∀ x : Nat, h'.gc[x]? = some GcState.used ↔ Reach (h.children fixed) h.gc.size roots x) ∧
+      (∀ x : Nat, h'.gc[x]? ≠ some GcState.used → h'.gc[x]? = h.gc[x]?) ∧
+      h'.cells = h.cells ∧ h'.free = h.free ∧ h'.symtab = h.symtab ∧ h'.chunk = h.chunk := by
+  obtain ⟨h', hm⟩ := mark_total fixed h roots
+  have ms := mark_spec fixed h roots h' hnu hm
+  refine ⟨h', hm, ms.used_iff, ?_, ms.cells, ms.free, ms.symtab, ms.chunk⟩
+  intro x hx
+  rcases ms.frame x with h1 | ⟨h1, _⟩
+  · exact h1
+  · exact absurd h1 hx
+
+/-- **T03.1 (fuel)** the worklist never runs out of fuel, whatever the heap contains -/
+theorem mark_fuel_adequate (fixed : Bool) (h : Heap) (roots : List Nat) :
+    ∃ h', h.mark fixed roots = some h' := mark_total fixed h roots
+
+/-- `run_gc` never reports exhausted fuel -/
+theorem runGc_fuel_adequate (fixed force : Bool) (h : Heap) (r : Roots) :
+    Heap.runGc fixed force h r ≠ .ok .fuelExhausted := runGc_never_fuel fixed force h r
+
+/-! ## T03.2 -/
+
+/-- **T03.2** after `run_gc` every cell reachable from the roots is allocated, has the content it
+had, and — when it is a symbol — its name is still interned at that very cell. -/
+theorem runGc_preserves_reachable (fixed force : Bool) (h : Heap) (r : Roots) (h' : Heap)
+    (hsz : h.gc.size = h.cells.size) (hnu : ∀ i : Nat, h.gc[i]? ≠ some GcState.used) (hs : Shape h)
+    (hrun : Heap.runGc fixed force h r = .ok (.collected h')) :
+    ∀ x, Reachable fixed h (r.refs fixed) x →
+      h'.gc[x]? = some GcState.allocated ∧ h'.cells[x]? = h.cells[x]? ∧
+      (Interned h → h.NonFree x → ∀ name, h.cells[x]? = some (.symbol name) → h'.symLookup name = some x) := by
+  intro x hx
+  have gs := runGc_spec fixed force h r h' hsz hnu hs hrun
+  refine ⟨gs.gc_reach x hx, gs.cells_reach x hx, ?_⟩
+  intro hint hnf name hc
+  have hl := (hint name x).mpr ⟨hc, hnf⟩
+  rw [gs.sym name]
+  split
+  · rename_i hex
+    obtain ⟨j, hj1, hj2, hj3⟩ := hex
+    have := (hint name j).mpr ⟨hj3, Or.inl hj1⟩
+    rw [hl] at this; cases this
+    exact absurd hx hj2
+  · exact hl
+
+/-- a skipped collection changes nothing -/
+theorem runGc_skipped_id (fixed force : Bool) (h : Heap) (r : Roots) (h' : Heap)
+    (hrun : Heap.runGc fixed force h r = .ok (.skipped h')) : h' = h := by
+  rcases runGc_inv fixed force h r _ hrun with h1 | ⟨h1, _⟩ | ⟨_, _, _, h1, _⟩
+  · cases h1; rfl
+  · cases h1
+  · cases h1
+
+/-- **T03.2, in the form the unobservability argument consumes.** Let `obs` be anything the machine
+computes from the heap (the content read by one instruction, the datum `get_as_cell` builds, an
+`eq?` answer …) and suppose it looks only at reachable cells (`hobs`: *root sufficiency* — this is the
+premise to be discharged by the machine model, instruction by instruction). Then a collection at
+this point does not change it. -/
+theorem runGc_preserves_observation {α : Type} (fixed force : Bool) (h : Heap) (r : Roots) (h' : Heap)
+    (obs : Heap → α)
+    (hobs : ∀ h₁ h₂ : Heap, (∀ x, Reachable fixed h (r.refs fixed) x → h₂.cells[x]? = h₁.cells[x]?) → obs h₂ = obs h₁)
+    (hsz : h.gc.size = h.cells.size) (hnu : ∀ i : Nat, h.gc[i]? ≠ some GcState.used) (hs : Shape h)
+    (hrun : Heap.runGc fixed force h r = .ok (.collected h')) : obs h' = obs h :=
+  hobs h h' fun x hx => (runGc_preserves_reachable fixed force h r h' hsz hnu hs hrun x hx).2.1
+
+/-! ## T03.3 (repaired marker) -/
+
+theorem new_wf (chunk : Nat) (h : Heap) (hpos : 0 < chunk) (hb : chunk ≤ 2 ^ 63)
+    (hn : Heap.new chunk = .ok h) : WFHeap true h :=
+  Marwood.Lemmas.HeapWFOps.new_wf true chunk h hpos hb hn
+
+theorem alloc_preserves_wf (h h' : Heap) (p : Nat) (wf : WFHeap true h)
+    (hb : Heap.grownSize h.chunk h.cells.size ≤ 2 ^ 63) (ha : h.alloc = .ok (h', p)) :
+    WFHeap true h' ∧ AllocFacts h h' p := alloc_wf true h h' p wf hb ha
+
+theorem put_preserves_wf (h h' : Heap) (c v : VCell) (wf : WFHeap true h) (hrefs : RefsOk true h c)
+    (hb : Heap.grownSize h.chunk h.cells.size ≤ 2 ^ 63) (hput : h.put c = .ok (h', v)) :
+    WFHeap true h' ∧ ((∃ q, c = .ptr q ∧ v = c ∧ h' = h) ∨ PutFacts h h' c v) :=
+  put_wf true h h' c v wf hrefs hb hput
+
+theorem maybePut_preserves_wf (h h' : Heap) (c v : VCell) (wf : WFHeap true h) (hrefs : RefsOk true h c)
+    (hb : Heap.grownSize h.chunk h.cells.size ≤ 2 ^ 63) (hput : h.maybePut c = .ok (h', v)) :
+    WFHeap true h' ∧ ((v = c ∧ h' = h) ∨ PutFacts h h' c v) :=
+  maybePut_wf true h h' c v wf hrefs hb hput
+
+theorem free_preserves_wf (h h' : Heap) (p : Nat) (wf : WFHeap true h)
+    (hp : h.gc[p]? = some GcState.allocated)
+    (hunref : ∀ i, i ≠ p → h.NonFree i → p ∉ h.children true i)
+    (hfree : h.free' p = .ok h') : WFHeap true h' := free_wf true h h' p wf hp hunref hfree
+
+theorem grow_preserves_wf (h h' : Heap) (wf : WFHeap true h) (hb : Heap.grownSize h.chunk h.cells.size ≤ 2 ^ 63)
+    (hg : h.grow = .ok h') : WFHeap true h' := by
+  obtain ⟨g, hg', gs, hsg⟩ := grow_spec h wf.sizes wf.shape
+  rw [hg] at hg'; cases hg'
+  exact grow_wf true h h' wf gs hsg (by rw [gs.csize]; exact hb)
+
+theorem mark_preserves_wfcore (h h1 : Heap) (roots : List Nat) (wf : WFHeap true h)
+    (hr : RootsOk h roots) (hm : h.mark true roots = some h1) :
+    WFCore true h1 ∧ (∀ i : Nat, h1.NonFree i ↔ h.NonFree i) ∧
+      (∀ i : Nat, h1.gc[i]? = some GcState.used ↔ Reachable true h roots i) :=
+  mark_wfcore true h h1 roots wf hr hm
+
+/-- **T03.3** `run_gc` (mark from the machine roots, sweep, optional growth) preserves `WFHeap`:
+state `Free` ⇔ on the free list, no duplicates on the free list, symbol table ⇔ allocated symbol
+cells, allocated cells refer only to allocated cells. -/
+theorem runGc_preserves_wf (force : Bool) (h : Heap) (r : Roots) (h' : Heap)
+    (wf : WFHeap true h) (hr : RootsOk h (r.refs true)) (hb : h'.cells.size ≤ 2 ^ 63)
+    (hrun : Heap.runGc true force h r = .ok (.collected h')) : WFHeap true h' :=
+  runGc_wf true force h r h' wf hr hb hrun
+
+/-! ## non-trivial instances -/
+
+/-- a heap built through the API: two symbols, a pair of them, a closure over a lambda whose bytecode
+jumps (offset 5) and an environment; roots: the closure. -/
+def demoOps : Res (Heap × List VCell) := do
+  let h ← Heap.new 8
+  let (h, a) ← h.put (.symbol ['a'])
+  let (h, b) ← h.put (.symbol ['b'])
+  let (h, p) ← h.put (.pair 0 1)
+  let (h, l) ← h.put (.lambda [.opcode .jnt, .ptr 5, .opcode .movImmediate, .ptr 2, .atom .acc, .opcode .ret] [] [])
+  let (h, e) ← h.put (.lexEnv [.ptr 2, .atom .number])
+  let (h, k) ← h.put (.closure 3 4)
+  let (h, _) ← h.put (.atom .string)            -- garbage
+  pure (h, [a, b, p, l, e, k])
+
+def demoHeap : Heap := match demoOps with | .ok (h, _) => h | .error _ => default
+def demoRoots : Roots :=
+  { globalSyms := [], globalSlots := [], stack := [.atom .undefined, .ptr 5], acc := .atom .undefined,
+    ipLam := 2 ^ 64 - 1, ep := 2 ^ 64 - 1 }
+
+/-- the demo heap satisfies every hypothesis used above (checked by the executable counterpart of the
+invariants; the propositional `WFHeap` for API-built heaps follows from `new_wf`/`put_preserves_wf`) -/
+example : Check.wfCheck true demoHeap demoRoots = none := by decide
+
+example : ∃ h', Heap.runGc true true demoHeap demoRoots = .ok (.collected h') ∧
+    h'.gc[5]? = some GcState.allocated ∧ h'.gc[0]? = some GcState.allocated ∧
+    h'.gc[6]? = some GcState.free ∧ h'.symLookup ['a'] = some 0 := by
+  refine ⟨_, rfl, ?_, ?_, ?_, ?_⟩ <;> decide
+
+/-- hypotheses of T03.1/T03.2 hold for the demo heap (sizes, no marks, shape) -/
+example : demoHeap.gc.size = demoHeap.cells.size ∧ Shape demoHeap ∧
+    (∀ i : Nat, demoHeap.gc[i]? ≠ some GcState.used) := by
+  refine ⟨by decide, ⟨by decide, by decide, 1, by decide, by decide⟩, ?_⟩
+  intro i
+  by_cases hi : i < 8
+  · have : i = 0 ∨ i = 1 ∨ i = 2 ∨ i = 3 ∨ i = 4 ∨ i = 5 ∨ i = 6 ∨ i = 7 := by omega
+    rcases this with h | h | h | h | h | h | h | h <;> subst h <;> decide
+  · have hs : demoHeap.gc.size = 8 := by decide
+    rw [Array.getElem?_eq_none (by omega)]
+    simp
+
+def okOr {α} [Inhabited α] : Res α → α
+  | .ok a => a
+  | .error _ => default
+
+def hA : Heap := okOr (Heap.new 8)
+def hB : Heap := (okOr (hA.put (.symbol ['a']))).1
+def hC : Heap := (okOr (hB.put (.pair 0 0))).1
+
+/-- `WFHeap` is inhabited by heaps with live structure: a fresh heap after two `put`s -/
+example : WFHeap true hC ∧ hC.NonFree 0 ∧ hC.NonFree 1 ∧ hC.symLookup ['a'] = some 0 := by
+  have h0 : Heap.new 8 = .ok hA := by decide
+  have wf0 := new_wf 8 _ (by decide) (by decide) h0
+  have h1 : hA.put (.symbol ['a']) = .ok (hB, .ptr 0) := by decide
+  obtain ⟨wf1, _⟩ := put_preserves_wf _ _ _ _ wf0 (by intro y hy; cases hy) (by decide) h1
+  have h2 : hB.put (.pair 0 0) = .ok (hC, .ptr 1) := by decide
+  obtain ⟨wf2, _⟩ := put_preserves_wf _ _ _ _ wf1
+    (by intro y hy
+        have : y = 0 := by simpa [crefs] using hy
+        subst this; left; left; decide) (by decide) h2
+  exact ⟨wf2, by left; decide, by left; decide, by decide⟩
+
+/-! ## the pinned marker: negation of T03.3 at a witness -/
+
+/-- one code object whose bytecode is `JMP 5` and one number; cell 5 is free -/
+def witness : Heap :=
+  { chunk := 8
+    cells := #[.lambda [.opcode .jmp, .ptr 5] [] [], .atom .number, .atom .undefined, .atom .undefined,
+               .atom .undefined, .atom .undefined, .atom .undefined, .atom .undefined]
+    gc := #[.allocated, .allocated, .free, .free, .free, .free, .free, .free]
+    free := [2, 3, 4, 5, 6, 7]
+    symtab := [] }
+
+def witnessRoots : Roots :=
+  { globalSyms := [], globalSlots := [], stack := [.atom .undefined, .ptr 1], acc := .atom .undefined, ipLam := 0,
+    ep := 2 ^ 64 - 1 }
+
+def noRoots : Roots :=
+  { globalSyms := [], globalSlots := [], stack := [.atom .undefined, .ptr 1], acc := .atom .undefined,
+    ipLam := 2 ^ 64 - 1, ep := 2 ^ 64 - 1 }
+
+/-- the witness is a well-formed heap in the semantic sense (the jump offset is not a reference) -/
+theorem witness_ok : Check.wfCheck true witness witnessRoots = none := by decide
+
+def collected (r : Res Heap.GcResult) : Heap :=
+  match r with
+  | .ok (.collected h) => h
+  | _ => default
+
+/-- **negation of T03.3 for the pinned marker**: one collection of the witness with the unfixed child
+function leaves cell 5 `Allocated` *and* on the free list -/
+theorem unfixed_marker_breaks_wf :
+    ¬ WFHeap false (collected (Heap.runGc false true witness witnessRoots)) := by
+  intro wf
+  have h1 : (5 : Nat) ∈ (collected (Heap.runGc false true witness witnessRoots)).free := by decide
+  have h2 := (wf.free_iff 5).mp h1
+  revert h2
+  decide
+
+/-- with the repaired marker the same collection keeps the invariant (executable check) -/
+theorem fixed_marker_keeps_wf :
+    Check.wfCheck true (collected (Heap.runGc true true witness witnessRoots)) witnessRoots = none := by decide
+
+/-- allocate `n` cells, collecting the addresses -/
+def allocN : Nat → Heap → List Nat
+  | 0, _ => []
+  | n+1, h => match h.alloc with
+    | .ok (h', p) => p :: allocN n h'
+    | .error _ => []
+
+/-- **the double allocation**: collect (code object live), drop the code object, collect again, then
+allocate: with the pinned marker cell 5 is handed out twice -/
+theorem unfixed_marker_allocates_cell_twice :
+    (allocN 8 (collected (Heap.runGc false true
+      (collected (Heap.runGc false true witness witnessRoots)) noRoots))).count 5 = 2 := by decide
+
+theorem fixed_marker_allocates_each_cell_once :
+    (allocN 8 (collected (Heap.runGc true true
+      (collected (Heap.runGc true true witness witnessRoots)) noRoots))).Nodup := by decide
+
 end Marwood.Proofs.C03
